@@ -2171,6 +2171,18 @@ namespace bxdecay0 {
             bb_params_.dump(std::cerr, "[debug] ");
           }
           decay0_bb(prng_, event_, &bb_params_);
+          if (bb_params_.ebb1 >= bb_params_.ebb2) {
+            // The requested energy range does not intersect the kinematic range [0,e0] of the decay
+            std::cerr << "[error] "
+                      << "bxdecay0::genbbsub: "
+                      << "Empty energy range for the sum of e-/e+ energies : [" << bb_params_.ebb1 << ';'
+                      << bb_params_.ebb2 << "] MeV !\n";
+            ier_ = 1;
+            if (trace) {
+              std::cerr << "[debug] bxdecay0::genbbsub: Exiting." << std::endl;
+            }
+            return;
+          }
           if (trace) {
             std::cerr << "[debug] bxdecay0::genbbsub: Initializing DBD process is done." << std::endl;
           }
